@@ -229,4 +229,5 @@ func ZzC05MediaRT() {
 		}
 	}
 	zzCover("done", true)
+	zzAssertMustFail(m.Formats[0].PayloadType() == 96, "twin: the payload type is always 96")
 }
